@@ -399,6 +399,21 @@ impl<K: SimKernel<D>, const D: usize> Monitor<K, D> for C13 {
                 let first = a.verts.iter().zip(&b.verts).find(|(x, y)| x != y).map(|(x, y)| format!("{:032x}: {:?}/{:?} vs {:?}/{:?}", x.0, x.1.iter().map(|v| f64::from_bits(*v)).collect::<Vec<_>>(), x.2, y.1.iter().map(|v| f64::from_bits(*v)).collect::<Vec<_>>(), y.2));
                 fail(ctx, "round-trip-canonical-differs", "canonical".into(), format!("vertices {} vs {}, cells {} vs {}, adjacency {} vs {}; first differing vertex: {first:?}", a.verts.len(), b.verts.len(), a.cells.len(), b.cells.len(), a.adj.len(), b.adj.len()));
             }
+            // vertex -> incident cell: a vertex that had a valid incident cell has one after the round trip
+            // (the pointer is stored state the insertion path relies on; `None` reads as "isolated" there)
+            {
+                let valid_incident = |s: &Snap| -> std::collections::BTreeSet<u128> {
+                    s.verts
+                        .iter()
+                        .filter(|v| v.incident.is_some_and(|c| s.cells.iter().any(|cell| cell.key == c && cell.verts.contains(&v.key))))
+                        .map(|v| v.uuid)
+                        .collect()
+                };
+                let (ia, ib) = (valid_incident(post), valid_incident(&lsnap));
+                if let Some(u) = ia.difference(&ib).next() {
+                    fail(ctx, "round-trip-incident-cell-lost", "incident".into(), format!("{} of {} vertices with a valid incident cell have none (or an invalid one) after the round trip, e.g. {u:032x}", ia.difference(&ib).count(), ia.len()));
+                }
+            }
             // cell uuid + data preserved
             let mut ca: Vec<(u128, Option<i32>)> = post.cells.iter().map(|c| (c.uuid, c.data)).collect();
             let mut cb: Vec<(u128, Option<i32>)> = lsnap.cells.iter().map(|c| (c.uuid, c.data)).collect();
